@@ -2,6 +2,7 @@
 //
 //	rt  <Type> <tree>   build the pilosa value from the tree, proto.Serializer.Marshal, Unmarshal into a
 //	                    fresh value, print the tree of the result (or err:decode / panic:decode)
+//	bc  <Type> <tree>   the same through the broadcast framing (type byte of getMessageType, getMessage on receipt)
 //	dec <Type> <tree>   build the protobuf-side message (internal.*) from the tree, gogo-marshal it,
 //	                    proto.Serializer.Unmarshal into a fresh pilosa value, print its tree
 //
@@ -554,6 +555,12 @@ var msgTypes = []msgType{
 	{"TranslateKeysResponse", reflect.TypeOf(pilosa.TranslateKeysResponse{})},
 }
 
+// broadcastTypes: the cases of Server.receiveMessage (what nodes send each other with a type byte)
+var broadcastTypes = []string{"CreateShardMessage", "CreateIndexMessage", "DeleteIndexMessage", "CreateFieldMessage",
+	"DeleteFieldMessage", "DeleteAvailableShardMessage", "CreateViewMessage", "DeleteViewMessage", "ClusterStatus",
+	"ResizeInstruction", "ResizeInstructionComplete", "SetCoordinatorMessage", "UpdateCoordinatorMessage",
+	"NodeStateMessage", "RecalculateCaches", "NodeEvent", "NodeStatus"}
+
 func msgByName(n string) *msgType {
 	for i := range msgTypes {
 		if msgTypes[i].name == n {
@@ -599,6 +606,18 @@ func execLine(l string) string {
 			return "err:decode"
 		}
 		return toTree(out.Elem()).String()
+	case "bc":
+		v := reflect.New(mt.p)
+		fromTree(t, v.Elem())
+		out, err := pilosa.VerifC27Broadcast(v.Interface(), ser)
+		if err != nil {
+			return "err:decode"
+		}
+		ov := reflect.ValueOf(out)
+		if ov.Type() != v.Type() {
+			return "type-confusion:" + mt.name + "->" + ov.Type().Elem().Name()
+		}
+		return toTree(ov.Elem()).String()
 	case "dec":
 		v := reflect.New(mt.i())
 		fromTree(t, v.Elem())
@@ -908,7 +927,13 @@ func (p *prop) Gen(r *vh.Rng, tier string, n int) []vh.Case {
 		}
 		g := &gen{r: cr}
 		var line string
-		if cr.Chance(2, 3) {
+		if cr.Chance(1, 8) {
+			// broadcast framing: only the message types the server sends to its peers
+			bt := *msgByName(broadcastTypes[cr.Intn(len(broadcastTypes))])
+			v := reflect.New(bt.p).Elem()
+			g.fill(v, false)
+			line = "bc " + bt.name + " " + toTree(v).tokens()
+		} else if cr.Chance(2, 3) {
 			v := reflect.New(mt.p).Elem()
 			g.fill(v, false)
 			line = "rt " + mt.name + " " + toTree(v).tokens()
